@@ -870,6 +870,26 @@ def gen_C09(r, n, thorough=False):
                 c.add('num_integration.impl_ToPrimitive_for_TwoFloat.to_%ssize %s' % (ty[0], w2(t)), kind='toprim', ty=ty, t=t)
         for v in vals[:max(50, n)]:
             c.add('num_integration.impl_FromPrimitive_for_TwoFloat.from_%s %d' % (ty, v), kind='from', ty=ty, v=v)
+        # the generic <TwoFloat as NumCast>::from(n) (hand model Hand.numCastFrom): it must agree with From<int>; its only own logic is the
+        # 2^53 switch between the f64 route and the 128-bit integer routes, so the neighbourhood of +-2^53 is enumerated
+        nc = list(vals[:max(50, n)])
+        if ty in BIG:
+            nc += [sg * ((1 << 53) + d) for sg in (1, -1) for d in range(-3, 6)] + [sg * ((1 << k) + d) for sg in (1, -1) for k in (52, 54, 63, 64, 106, 107, 127) for d in (-1, 0, 1)]
+        for v in nc:
+            if lo <= v <= hi:
+                c.add('numcast.%s %d' % (ty, v), kind='numcast_int', ty=ty, v=v)
+                if ty in ('i64', 'u64'):
+                    c.add('numcast.%ssize %d' % (ty[0], v), kind='numcast_int', ty=ty, v=v)
+    import struct as _st
+    fl = [0.0, -0.0, 1.0, -1.0, -0.5, 0.5, 2.0**53, -2.0**53, 2.0**53 - 1, 2.0**53 + 2, -(2.0**53) - 2, 2.0**52 + 0.5, 2.0**63, -2.0**63, 2.0**64,
+          2.0**127, -2.0**127, -2.0**127 * (1 + 2.0**-52), 2.0**127 * (1 - 2.0**-53), 2.0**128, 2.0**128 * (1 - 2.0**-53), 2.0**129, 1e300, -1e300,
+          float('inf'), float('-inf'), float('nan'), 5e-324, -5e-324, 2.2250738585072014e-308]
+    for x in fl + [fp.any_f64(r) for _ in range(n)]:
+        c.add('numcast.f64 %s' % hx(x), kind='numcast_f64', x=x)
+    f32s = [0x00000000, 0x80000000, 0x3f800000, 0xbf800000, 0x5a000000, 0xda000000, 0x59ffffff, 0x5a000001, 0x7e800000, 0xfe800000, 0xff000000, 0x7f000000,
+            0x7f7fffff, 0xff7fffff, 0x7f800000, 0xff800000, 0x7fc00000, 0x00000001, 0x80000001, 0x5f000000, 0xdf000000]
+    for b in f32s + [r.next() & 0xffffffff for _ in range(n)]:
+        c.add('numcast.f32 %08x' % b, kind='numcast_f64', x=_st.unpack('<f', _st.pack('<I', b))[0])
     for _ in range(n):
         t = fp.any_tf(r)
         c.add('convert.impl_From_TwoFloat_for_f64.from %s' % w2(t), kind='tof64', t=t)
@@ -905,6 +925,31 @@ def chk_C09(c, ans):
             elif abs(R - v) > Fr(abs(v), 2 ** 106):
                 out.append(fail(i, 'from_int128_close', '%s' % v))
             m['res'] = (h, l)
+        elif k == 'numcast_int':
+            # <TwoFloat as NumCast>::from(n) is Some(TwoFloat::from(n)): valid, exact up to 106 significant bits, within 2^-106|n| beyond
+            if not a.startswith('Some('):
+                out.append(fail(i, 'numcast_from_int', 'n=%d got %s' % (m['v'], a))); continue
+            h, l = words(a[5:-1])
+            v = m['v']
+            if not fp.is_valid(h, l):
+                out.append(fail(i, 'numcast_from_int_valid', '%s -> (%s,%s) invalid' % (v, hx(h), hx(l)))); continue
+            R = V(h, l)
+            if abs(v).bit_length() - (((abs(v) & -abs(v)).bit_length() - 1) if v else 0) <= 106:
+                if R != v:
+                    out.append(fail(i, 'numcast_from_int_exact', '<TwoFloat as NumCast>::from(%s) has the value %s (TwoFloat::from(n) is exact)' % (v, R)))
+            elif abs(R - v) > Fr(abs(v), 2 ** 106):
+                out.append(fail(i, 'numcast_from_int128_close', '%s' % v))
+        elif k == 'numcast_f64':
+            # a float argument: the float itself with a zero low word (NaN stays NaN, infinities stay infinite)
+            x = m['x']
+            if not a.startswith('Some('):
+                out.append(fail(i, 'numcast_from_float', 'x=%s got %s' % (hx(x), a))); continue
+            h, l = words(a[5:-1])
+            if x != x:
+                if h == h:
+                    out.append(fail(i, 'numcast_from_float', 'NaN -> %s' % a))
+            elif not (h == x and l == 0.0 and (x != 0.0 or math.copysign(1.0, h) == math.copysign(1.0, x))):
+                out.append(fail(i, 'numcast_from_float', 'x=%s got %s' % (hx(x), a)))
         elif k == 'try':
             t = m['t']
             lo, hi = fp.INT_RANGES[m['ty']]
@@ -977,6 +1022,7 @@ PROPS = {
                 gen=gen_C08, chk=chk_C08, n_quick=6000, n_thorough=100000),
     'C09': dict(roots=[r'^convert\.impl_(From|TryFrom)_', r'^num_integration\.impl_(FromPrimitive|ToPrimitive)_for_TwoFloat'],
                 gen=gen_C09, chk=chk_C09, n_quick=300, n_thorough=4000, gen_tier=True,
+                hand_sources=['src/num_integration.rs#impl num_traits::NumCast for TwoFloat'],
                 followups=[(roundtrip_C09, chk_roundtrip_C09)]),
     'C19': dict(roots=[ARITH % 'Rem|RemAssign', r'^TwoFloat\.(div_euclid|rem_euclid)$'], gen=gen_C19, chk=chk_C19, n_quick=1500, n_thorough=30000),
 }
